@@ -195,4 +195,21 @@ theorem rlo (l1 l2 : List (Option ARange)) :
           simp only [pyOAR, Option.map, pyAR]
           py_exec [rov]
           split <;> rfl
+theorem gars (fm : FMap) (sd sh sw : Int)
+    (hs : ∀ s, fm.strides = some s → s.depth = sd ∧ s.height = sh ∧ s.width = sw) :
+    Except.map (List.filterMap id)
+      (get_address_ranges (.py fm.elemBytes) (.py fm.region) (.py fm.shape.depth) (.py fm.shape.height)
+        (.py fm.shape.width) (.py sd) (.py sh) (.py sw) (.py fm.tiles.height0) (.py fm.tiles.height1)
+        (.py fm.tiles.width0) [.py fm.tiles.a0, .py fm.tiles.a1, .py fm.tiles.a2, .py fm.tiles.a3]
+        fm.nhcwb16 (!fm.nhcwb16) fm.strides.isNone) =
+      .ok ((getAddressRanges fm).map pyAR) := by
+  unfold getAddressRanges
+  py_exec [get_address_ranges, gst fm sd sh sw hs, gar, Option.isSome_some, Option.isSome_none, Bool.false_eq_true,
+    and_false, false_and]
+  repeat' py_split1
+  all_goals first
+    | omega
+    | (exfalso; simp_all; done)
+    | (simp only [Except.map, List.filterMap_cons, id, List.filterMap_nil, List.map_cons, List.map_nil,
+        List.cons_append, List.nil_append, List.append_nil]; done)
 end VelaVerif.SrcNpuAccess
